@@ -58,7 +58,15 @@ def run(tier, t0):
         for b, i in somes:
             facts = [r for r, gd, s in panics.dominating_facts(g, b)]
             deq = any(r[0] == 'eq' and show(r[1]).endswith('.depth') and show(r[2]) == 'depth' for r in facts)
-            inr = any(r[0] == 'lt' and show(r[1]) == 'addr' and 'end_address' in show(r[2]) for r in facts)
+            # addr < address + size, or (after the repair for ranges ending at 2^64) size != 0 and addr <= address + (size - 1)
+            def last_byte(x):
+                x = g.expand(x)
+                if x[0] == 'vfield' and x[1] in ('Continue', 'Some'):
+                    x = x[3][1] if x[3][0] == 'trybranch' else x[3]
+                return is_call(x, 'checked_add') and show(x[2]).endswith('.address') and re.match(r'^\(Sub \(cast u64 \S*\.size\) 1\)$', show(x[3])) is not None
+            inr = any(r[0] == 'lt' and show(r[1]) == 'addr' and 'end_address' in show(r[2]) for r in facts) or (
+                any(r[0] == 'le' and show(r[1]) == 'addr' and last_byte(r[2]) for r in facts)
+                and any(r[0] == 'ne' and show(r[1]).endswith('.size') and r[2] == ('int', 0) for r in facts))
             if not (deq and inr):
                 good = False
         if not somes or not good:
@@ -236,7 +244,7 @@ def run(tier, t0):
     # filtered for empty records (`size > 0`) and handed to the range-map builders; nothing merges, de-duplicates,
     # truncates or rewrites records (merging two INLINE ranges loses the second call site)
     res.rule('C11.7', 0, floor=10, note='finish_item / finish apply only sort / push / the size filter / the builders to record collections')
-    ALLOWED = re.compile(r'(DerefMut>::deref_mut|Deref>::deref|IntoIterator>::into_iter|Iterator::filter|Iterator::map|into_rangemap_safe|slice::sort|Vec::push|Iterator::collect|std::mem::take|Vec::new|core::mem::take)$')
+    ALLOWED = re.compile(r'(DerefMut>::deref_mut|Deref>::deref|IntoIterator>::into_iter|Iterator::filter|Iterator::map|into_rangemap_safe|slice::sort|slice::sort_by_key|Vec::push|Vec::retain|Iterator::collect|std::mem::take|Vec::new|core::mem::take)$')
     for g in c.fns:
         if not re.search(r'SymbolParser::(finish_item|finish)$', g.qual):
             continue
@@ -248,14 +256,32 @@ def run(tier, t0):
             if not ALLOWED.search(n):
                 a0 = show(g.expand(g.operand_tree(t['args'][0])))[:80] if t['args'] else ''
                 res.violation('C11.7', 'C11.7|%s|%s' % (g.qual.split('::')[-1], n.split('::')[-1]), g, t.get('line'), '%s rewrites a parsed record collection (%s) before it is stored: records must reach the lookup tables as parsed' % (n, a0))
-            if n.endswith('Iterator::filter'):
+            if n.endswith('Iterator::filter') or n.endswith('Vec::retain'):
                 cl = g.expand(g.operand_tree(t['args'][1]))
                 okf = False
                 if cl[0] == 'closure':
                     h = c.fn(cl[1])
-                    okf = h is not None and [show(h.expand(t2)) for (_, _, t2) in ret_assigns(h)] == ['(Gt l.size 0)']
+                    okf = h is not None and [show(h.expand(t2)) for (_, _, t2) in ret_assigns(h)] in (['(Gt l.size 0)'], ['(Gt inlinee.size 0)'])
                 if not okf:
                     res.violation('C11.7', 'C11.7|%s|filter' % g.qual.split('::')[-1], g, t.get('line'), 'records are filtered by something other than `size > 0`')
+    # C11.8 the inlinee search looks at the nearest preceding record only, so an empty range must not be among the records
+    res.rule('C11.8', 0, floor=1, note='zero-size INLINE ranges are dropped (retain / filter on size > 0) before the inlinee table is sorted and stored')
+    fi = c.fn(SF + 'parser::SymbolParser::finish_item')
+    if fi is None:
+        res.error('C11.8', 'finish_item not found')
+    else:
+        res.rule('C11.8', 1)
+        okr = False
+        stores = [(b, i) for (b, i, place, rv) in part_assigns(fi, 'inlinees')]
+        for b, t in fi.calls():
+            n = fi.callee(t) or ''
+            if (n.endswith('Vec::retain') or n.endswith('Iterator::filter')) and 'inlinees' in show(fi.expand(fi.operand_tree(t['args'][0]))):
+                cl = fi.expand(fi.operand_tree(t['args'][1]))
+                h = c.fn(cl[1]) if cl[0] == 'closure' else None
+                if h is not None and [show(h.expand(t2)) for (_, _, t2) in ret_assigns(h)] == ['(Gt inlinee.size 0)'] and stores and all(fi.dominates(b, sb) for sb, si in stores):
+                    okr = True
+        if not okr:
+            res.violation('C11.8', 'C11.8|inlinee-empty', fi, fi.line, 'empty INLINE ranges are stored in the inlinee table: get_inlinee_at_depth takes the nearest preceding record, so an empty one hides the inlinee that covers the addresses after it')
     res.assumptions += ['slice::binary_search_by_key and RangeMap::get are correct on sorted / non-overlapping data (std, range-map)',
                         'that the right record is found for every record set is a property of the searches over data, not decided here']
     return harness.finish(res, tier, t0, distinct=8, explanation=(
